@@ -118,6 +118,18 @@ def run_spec(spec):
     releases = {}
     orig_rel = mgr._release_semaphore
 
+    def path_state(i):
+        # (temporary files present, destination file present) for a path download, else None
+        p = dests.get(i)
+        if not isinstance(p, str):
+            return None
+        base = os.path.basename(p)
+        try:
+            names = os.listdir(tmp)
+        except OSError:
+            return None
+        return ([n for n in names if n.startswith(base + '.') and scenario.TEMP_RE.search(n)], os.path.isfile(p))
+
     def counted_release(**kw):
         idx = getattr(tls, 'completing', None)
         if idx is None:
@@ -125,6 +137,17 @@ def run_spec(spec):
         releases[idx] = releases.get(idx, 0) + 1
         log.add('sem.release', idx=idx)
         return orig_rel(**kw)
+
+    # the moment a transfer is reported as having finished its done callbacks: publishing / removing the temporary file of a path
+    # download is one of those callbacks
+    orig_report = crt.CRTTransferCoordinator.set_done_callbacks_complete
+
+    def reporting(self_c):
+        log.add('done.report', idx=self_c.transfer_id, path_state=path_state(self_c.transfer_id))
+        return orig_report(self_c)
+
+    crt.CRTTransferCoordinator.set_done_callbacks_complete = reporting
+    run.restore = lambda: setattr(crt.CRTTransferCoordinator, 'set_done_callbacks_complete', orig_report)
 
     mgr._release_semaphore = counted_release
     run.slow_waiting = []
@@ -251,7 +274,8 @@ def run_spec(spec):
                     pass
         except BaseException as e:  # noqa
             exit_exc[0] = e
-        log.add('shutdown.end')
+        # what the file system looks like at the moment the exit returns
+        log.add('shutdown.end', path_states={i: path_state(i) for i in list(dests)})
 
     def await_(pred, what):
         nonlocal hang, stacks
@@ -349,7 +373,15 @@ def evaluate(spec, run):
                 viol.append(V(f'transfer {i}: request succeeded but result() raised {oc[1]!r}', sym='false-failure', **m))
             if t['outcome'] != 'ok' and oc[0] == 'success':
                 viol.append(V(f'transfer {i}: request outcome {t["outcome"]} but result() returned normally', sym='false-success', **m))
-        # path downloads
+        # path downloads: published (or cleaned up) by the time the permit is released and by the time the exit returns
+        if t['kind'] == 'download' and t.get('dst', 'path') == 'path' and i in run.dests and not t.get('dst_is_dir'):
+            for e in ev:
+                if e['kind'] == 'done.report' and e['idx'] == i and e.get('path_state') and e['path_state'][0]:
+                    viol.append(V(f'transfer {i} (download to path, {t["outcome"]}): temporary file {e["path_state"][0]} still present when the '
+                                  f'transfer was reported as having finished its done callbacks', sym='temp-at-done-report', **m))
+                if e['kind'] == 'shutdown.end' and (e.get('path_states') or {}).get(i) and e['path_states'][i][0] and began[0]['n'] < e['n']:
+                    viol.append(V(f'transfer {i} (download to path, {t["outcome"]}): temporary file {e["path_states"][i][0]} still present when '
+                                  f'{spec.get("exit")} returned', sym='temp-at-exit', **m))
         if t['kind'] == 'download' and t.get('dst', 'path') == 'path' and i in run.dests:
             p = run.dests[i]
             base = os.path.basename(p)
@@ -497,4 +529,6 @@ def run_case(case):
             res['trace'] = [trim(e) for e in run.events[:200]]
         return res
     finally:
+        if getattr(run, 'restore', None):
+            run.restore()
         shutil.rmtree(run.tmp, ignore_errors=True)
